@@ -744,3 +744,154 @@ pub fn run_punct(tier: &str, seed: u64) -> Sink {
     sink.s(json!({"c03_punct": {"generated": n}}));
     sink
 }
+
+/// C03 — ring 2 for Model/HangOp.lean `Sugar`: a call with a single string argument whose parentheses are dropped
+/// (call_parentheses = None) or added (Always), with comments in every gap of the argument list; the bytes after the
+/// callee must be the model's rendering.
+pub fn run_sugar(tier: &str, seed: u64) -> Sink {
+    let n = if tier == "thorough" { 30000 } else { 5000 };
+    let ctexts = ["c", "c  ", "", "é"];
+    let btexts = ["b", "b\nb", ""];
+    let parts = par_map(n, threads(), |i| {
+        let mut sink = Sink::default();
+        let mut r = Rng::new(seed.wrapping_mul(5237) ^ (i as u64) ^ 0x5A6);
+        let comment = |r: &mut Rng| -> (String, bool) {
+            if r.chance(1, 3) {
+                (format!("--{}", ctexts[r.below(ctexts.len())]), true)
+            } else {
+                let lvl = r.below(2);
+                let eqs = "=".repeat(lvl);
+                (format!("--[{}[{}]{}]", eqs, btexts[r.below(btexts.len())], eqs), false)
+            }
+        };
+        // comments on the current line (returns whether the line is still open), then optionally lines of their own
+        let gap = |src: &mut String, r: &mut Rng, count: &mut usize, may_break: bool| {
+            let mut open = true;
+            for _ in 0..r.below(3) {
+                if !open {
+                    break;
+                }
+                let (c, is_line) = comment(r);
+                src.push(' ');
+                src.push_str(&c);
+                *count += 1;
+                if is_line {
+                    open = false;
+                }
+            }
+            if !open || (may_break && r.chance(1, 4)) {
+                src.push('\n');
+                for _ in 0..r.below(2) {
+                    let (c, is_line) = comment(r);
+                    src.push('\t');
+                    src.push_str(&c);
+                    src.push_str(if is_line || r.chance(1, 2) { "\n" } else { " " });
+                    *count += 1;
+                }
+                src.push('\t');
+            } else {
+                src.push(' ');
+            }
+        };
+        let drop = r.chance(1, 2);
+        let mut src = String::from("callee_name");
+        let mut count = 0;
+        if drop {
+            src.push('(');
+            gap(&mut src, &mut r, &mut count, true);
+            src.push_str("\"x\"");
+            gap(&mut src, &mut r, &mut count, true);
+            src.push(')');
+        } else {
+            gap(&mut src, &mut r, &mut count, false);
+            src.push_str("\"x\"");
+        }
+        // behind the call, on its line
+        let mut open = true;
+        for _ in 0..r.below(3) {
+            if !open {
+                break;
+            }
+            let (c, is_line) = comment(&mut r);
+            src.push(' ');
+            src.push_str(&c);
+            count += 1;
+            if is_line {
+                open = false;
+            }
+        }
+        src.push('\n');
+        if count == 0 {
+            return sink;
+        }
+        let mut c = cfg();
+        c.syntax = LuaVersion::Lua51;
+        c.call_parentheses = if drop { stylua_lib::CallParenType::None } else { stylua_lib::CallParenType::Always };
+        let crlf = r.chance(1, 3);
+        c.line_endings = if crlf { LineEndings::Windows } else { LineEndings::Unix };
+        if !parses(&src, c.syntax) {
+            return sink;
+        }
+        let toks = match crate::lexutil::tokens(&src, c.syntax) {
+            Some(t) => t,
+            None => return sink,
+        };
+        let sig: Vec<usize> = (0..toks.len()).filter(|&k| significant(&toks[k])).collect();
+        let line_end = |from: usize, to: usize| -> usize {
+            let mut k = from;
+            while k < to {
+                let is_nl = matches!(toks[k].token_type(), TokenType::Whitespace { characters } if characters.contains('\n'));
+                k += 1;
+                if is_nl {
+                    break;
+                }
+            }
+            k.min(to)
+        };
+        // trivia between consecutive significant tokens a < b: (trailing of a, leading of b)
+        let split = |a: usize, b: usize| -> (String, String) {
+            let m = line_end(a + 1, b);
+            (triv_items(&toks[a + 1..m]), triv_items(&toks[m..b]))
+        };
+        let eof = toks.len();
+        let req = if drop {
+            if sig.len() != 4 {
+                return sink;
+            }
+            let (callee_trail, open_lead) = split(sig[0], sig[1]);
+            if callee_trail != "-" && callee_trail.contains(|ch| ch == 'L' || ch == 'B') {
+                return sink;
+            }
+            let (open_trail, arg_lead) = split(sig[1], sig[2]);
+            let (arg_trail, close_lead) = split(sig[2], sig[3]);
+            let close_trail = triv_items(&toks[sig[3] + 1..line_end(sig[3] + 1, eof)]);
+            format!("sugar drop {} {} {} {} {} {} {}", if crlf { "crlf" } else { "lf" }, open_lead, open_trail, arg_lead, arg_trail, close_lead, close_trail)
+        } else {
+            if sig.len() != 2 {
+                return sink;
+            }
+            let (callee_trail, arg_lead) = split(sig[0], sig[1]);
+            if callee_trail.contains(|ch| ch == 'L' || ch == 'B') {
+                // a comment behind the callee is the callee's (not modelled here)
+                return sink;
+            }
+            let arg_trail = triv_items(&toks[sig[1] + 1..line_end(sig[1] + 1, eof)]);
+            format!("sugar add {} {} {}", if crlf { "crlf" } else { "lf" }, arg_lead, arg_trail)
+        };
+        if let Outcome::Ok(out) = fmt(&src, c, None, false) {
+            let eol = if crlf { "\r\n" } else { "\n" };
+            if !out.starts_with("callee_name") || !out.ends_with(eol) {
+                return sink;
+            }
+            let s = &out["callee_name".len()..out.len() - eol.len()];
+            sink.q(req, if s.is_empty() { "-".to_string() } else { hex(s.as_bytes()) });
+        }
+        sink
+    });
+    let mut sink = Sink::default();
+    for s in parts {
+        sink.merge(s);
+    }
+    sink.s(json!({"c03_sugar": {"generated": n}}));
+    sink
+}
